@@ -478,6 +478,11 @@ pub fn replay(checks: &[Box<dyn Check>], path: &str) -> i32 {
                 .iter()
                 .position(|l| l.starts_with(&format!("#{around} ")));
             match pos {
+                _ if std::env::var("VERIF_REPLAY_FULL").is_ok() => {
+                    for l in o.excerpt.iter() {
+                        println!("  | {l}");
+                    }
+                }
                 Some(p) => {
                     for l in o.excerpt.iter().skip(p.saturating_sub(30)).take(34) {
                         println!("  | {l}");
